@@ -112,6 +112,9 @@ pub struct Model {
     pub flags: Vec<(String, String, String)>,
     pub probes: BTreeMap<String, u64>,
     pub faults: BTreeMap<String, u64>,
+    /// out of band: every address ever observed for a (checksum, creator, salt) triple, including in
+    /// instantiations that were rolled back afterwards
+    pub salted_seen: BTreeMap<(String, String, Vec<u8>), String>,
     /// (code id, instance count, salted (checksum hex, creator, salt)) -> address, used only when
     /// the address could not be learned because the instantiate entry point never ran
     pub addr_fallback: Option<Box<dyn Fn(u64, u64, Option<(String, String, Vec<u8>)>) -> Option<String>>>,
@@ -205,6 +208,7 @@ impl Model {
             probes: BTreeMap::new(),
             faults: BTreeMap::new(),
             addr_fallback: None,
+            salted_seen: BTreeMap::new(),
         }
     }
 
@@ -432,6 +436,28 @@ impl Model {
                         fb.unwrap_or_else(|| format!("unlearned-address-of-node-{}", node.nid))
                     }
                 };
+                if let (Some(key), true) = (&salt_key, self.learned_addr.contains_key(&node.nid)) {
+                    // the salted address is a function of (checksum, creator, salt) only ...
+                    match self.salted_seen.get(key) {
+                        Some(prev) if *prev != addr => self.flags.push((
+                            "C11".into(),
+                            "C11.salted_address_not_a_function".into(),
+                            format!("instantiate2 with the same checksum, creator and salt ran at {} earlier (rolled back since) and at {} now", prev, addr),
+                        )),
+                        Some(_) => self.probe("salted_address_repeated_after_rollback"),
+                        None => {
+                            // ... and different triples give different addresses
+                            if let Some((k2, _)) = self.salted_seen.iter().find(|(_, a)| **a == addr) {
+                                self.flags.push((
+                                    "C11".into(),
+                                    "C11.salted_address_collision".into(),
+                                    format!("instantiate2 triples {:?} and {:?} were both given address {}", k2, key, addr),
+                                ));
+                            }
+                            self.salted_seen.insert(key.clone(), addr.clone());
+                        }
+                    }
+                }
                 if self.s.contracts.contains_key(&addr) {
                     self.flags.push((
                         "C11".into(),
